@@ -1220,7 +1220,9 @@ func init() {
 			{Name: "stats", N: core.Const(400, 4000), Run: runStats},
 			{Name: "reassembly", N: core.Const(560, 6000), Run: runReassembly},
 			{Name: "arena", N: core.Const(300, 3000), Run: runArena},
+			{Name: "concurrent", N: core.Const(16, 128), Run: runConcurrent, Race: true, NRace: core.Const(4, 16), TimeoutS: 600},
 		},
+		RaceFiles:     []string{"pkg/obialign/pairedendalign.go", "pkg/obialign/alignment.go", "pkg/obialign/backtracking.go", "pkg/obialign/dnamatrix.go", "pkg/obikmer/encodefourmer.go", "pkg/obitools/obipairing/"},
 		MinNontrivial: 500,
 	})
 }
